@@ -87,6 +87,7 @@ class FakeLoop(object):
     def __init__(self):
         self.now = 0
         self.handles = []
+        self.callback_errors = []      # exceptions out of timer callbacks (asyncio logs them and carries on)
 
     def time(self):
         return self.now
@@ -116,7 +117,10 @@ class FakeLoop(object):
             self.now = max(self.now, h._when)
             h.fired = True
             fired.append(h._when)
-            h.cb(*h.args)
+            try:
+                h.cb(*h.args)
+            except Exception as exc:   # like asyncio's Handle._run: reported to the exception handler, the loop goes on
+                self.callback_errors.append((h._when, repr(exc)[:200]))
         self.now = max(self.now, t)
         return fired
 
